@@ -402,14 +402,14 @@ func init() {
 		core.RunLeg(c, core.Leg[engCase]{
 			Name: "H", Kind: "oracle(facts-at-matches)",
 			Rule: "patterns and inputs as C03 leg N; for every attempt position p of every input (0..len) the single-position attempt hook is run; at each position where it matches, every published fact is evaluated on the input: MinRequiredLength, MaxPossibleLength, LeadingAnchor, TrailingAnchor, LeadingPrefix (plain, OrdinalIgnoreCase, right-to-left), LeadingPrefixes (with LeadingPrefixFirstRunes and LeadingPrefixesRunes), FixedDistanceChar/String, FixedDistanceSets (set, Chars, Range, Negated), LiteralAfterLoop, LeadingChar/LeadingSet right-to-left, FcPrefix (with its case flag), the Anchors bit mask; required-landmark chains and the Boyer-Moore tables are covered through C03 (find = naive scan) only. non-trivial = the input has at least one real match; histogram lists which facts were evaluated",
-			N: c.N(8000, 300000), Corpus: engCorpus, Gen: g.next, Check: c04Check, Batch: 500,
+			N:    c.N(8000, 300000), Corpus: engCorpus, Gen: g.next, Check: c04Check, Batch: 500,
 		})
 		var k int
 		stL, stR := &specGenState{cfg: c01Config(false), perAst: 1, maxLen: 4}, &specGenState{cfg: c01Config(true), perAst: 1, maxLen: 4}
 		core.RunLeg(c, core.Leg[specCase]{
 			Name: "F", Kind: "correspondence(fact analysers)",
 			Rule: "random ASTs of the C01 fragment (both directions, option sets) printed and parsed by syntax.Parse; the engine's own tree is converted to the specification's AST and the Lean models of ComputeMinLength, computeMaxLength, findLeadingOrTrailingAnchor (leading, trailing) and tryFindPrefix (bytes + continue flag, left-to-right) must return exactly what the Go functions return on that tree (verif hook VerifFacts). One case per pattern; non-trivial = more than one AST node. Trees with an interior node whose direction bit contradicts its position are skipped and counted",
-			N: c.N(4000, 200000), Gen: func(rng *rand.Rand, i int) specCase {
+			N:    c.N(4000, 200000), Gen: func(rng *rand.Rand, i int) specCase {
 				k++
 				if k%3 == 0 {
 					return stR.next(rng, i)
